@@ -1072,7 +1072,10 @@ impl<'a> Visitor<'a> {
         Ok(None)
     }
 
-    fn trim_included(&self, nodes: &[CssTreeIdx]) -> CssTreeIdx {
+    /// Destructively trims a trailing sublist from `nodes` that matches the
+    /// current list of parents and returns the innermost trimmed parent (the
+    /// node the copies of the remaining `nodes` have to be added to).
+    fn trim_included(&self, nodes: &mut Vec<CssTreeIdx>) -> CssTreeIdx {
         if nodes.is_empty() {
             return CssTree::ROOT;
         }
@@ -1110,7 +1113,10 @@ impl<'a> Visitor<'a> {
             return CssTree::ROOT;
         }
 
-        nodes[innermost_contiguous.unwrap()]
+        let innermost_contiguous = innermost_contiguous.unwrap();
+        let root = nodes[innermost_contiguous];
+        nodes.truncate(innermost_contiguous);
+        root
     }
 
     fn visit_at_root_rule(&mut self, mut at_root_rule: AstAtRootRule) -> SassResult<Option<Value>> {
@@ -1146,7 +1152,7 @@ impl<'a> Visitor<'a> {
             current_parent_idx = grandparent_idx;
         }
 
-        let root = self.trim_included(&included);
+        let root = self.trim_included(&mut included);
 
         // If we didn't exclude any rules, we don't need to use the copies we might
         // have created.
@@ -1162,37 +1168,25 @@ impl<'a> Visitor<'a> {
             return Ok(None);
         }
 
-        let inner_copy = if !included.is_empty() {
-            let inner_copy = self
-                .css_tree
-                .get(*included.first().unwrap())
-                .as_ref()
-                .map(CssStmt::copy_without_children);
-            let mut outer_copy = self.css_tree.add_stmt(inner_copy.unwrap(), None);
-
-            for node in &included[1..] {
-                let copy = self
-                    .css_tree
-                    .get(*node)
-                    .as_ref()
-                    .map(CssStmt::copy_without_children)
-                    .unwrap();
-
-                let copy_idx = self.css_tree.add_stmt(copy, None);
-                self.css_tree.link_child_to_parent(outer_copy, copy_idx);
-
-                outer_copy = copy_idx;
-            }
-
-            Some(outer_copy)
+        // Re-create the ancestors that are kept (outermost first) below `root`; the
+        // body of the at-root rule goes into the innermost copy, or directly into
+        // `root` when nothing between it and the rule is kept.
+        let mut inner_copy = if root == CssTree::ROOT {
+            None
         } else {
-            let inner_copy = self
-                .css_tree
-                .get(root)
-                .as_ref()
-                .map(CssStmt::copy_without_children);
-            inner_copy.map(|p| self.css_tree.add_stmt(p, None))
+            Some(root)
         };
+
+        for node in included.iter().rev() {
+            let copy = self
+                .css_tree
+                .get(*node)
+                .as_ref()
+                .map(CssStmt::copy_without_children)
+                .unwrap();
+
+            inner_copy = Some(self.css_tree.add_stmt(copy, inner_copy));
+        }
 
         let body = mem::take(&mut at_root_rule.body);
 
